@@ -1,45 +1,8 @@
-(* C19 rep_verified_before_blk: in one iteration of the sync loop (Array/SyncModel.sync_stripe) a REP or CHG block
-   becomes BLK only if it was read in that iteration and its hash compared equal (REP) or was computed and stored (CHG);
-   a REP block whose data does not hash to the inherited value counts an error, the stripe is not completed and no
-   parity is written for it. *)
 From Coq Require Import NArith ZArith List Bool Arith Lia.
 From Snap.Array Require Import ArrayDefs SyncModel.
-From Snap.Scan Require Import ScanBasics ScanSound.
+From Snap.Scan Require Import ScanModel PrehashModel ScanExamples.
 Import ListNotations.
-
-Lemma hval_eqb_true a b : hval_eqb a b = true <-> a = b.
-Proof.
-  destruct a, b; simpl; split; intro H; try discriminate; try reflexivity.
-  - apply N.eqb_eq in H. congruence.
-  - inversion H. apply N.eqb_refl.
-Qed.
-
-Section Stripe.
-  Variable hashf : bid -> N -> hval.
-  Variable bs : N.
-  Variable nlev : nat.
-  Variable o : sopts.
-  Variable iob : nat.
-
-  Notation step := (disk_step hashf bs o iob).
-
-  Definition good (a : acc) : Prop := a_bail a = false /\ a_err a = false /\ a_io a = false.
-
-  (* the outcome of one disk does not stop the stripe *)
-  Definition benign (x : nat * slot * rd) : Prop :=
-    match x with
-    | (_, SFile f idx b, r) =>
-        match r with
-        | RdOk blk len => fb_state b = SRep -> hashf blk len = fb_hash b
-        | RdNone => True
-        | _ => False
-        end
-    | _ => True
-    end.
-
-  Lemma step_good_back a x : good (step a x) -> good a /\ benign x.
-  Proof.
-    destruct x as [[j s] r]. unfold good, disk_step. destruct (a_bail a) eqn:Eb.
-    - intros [H _]. congruence.
-    - destruct s as [|f idx b|h]; simpl.
-      + Show. 
+Eval vm_compute in (match ex_scan with Some o => Some (sc_cnt o, c_disks (sc_content o)) | None => None end).
+Eval vm_compute in (match ex_run false 2 with Some r => Some (c_disks (sy_content r), sy_parity r, sy_err r, sync_fails r) | None => None end).
+Eval vm_compute in (match ex_run false 7 with Some r => Some (c_disks (sy_content r), sy_parity r, sy_err r, sync_fails r) | None => None end).
+Eval vm_compute in (match ex_run true 7 with Some r => Some (sy_parity r, sy_hsilent r, sy_skipped r, sync_fails r) | None => None end).
